@@ -10,7 +10,7 @@ from vlib.workers import ALL, WorkerDied, WorkerSet
 PROPERTY = "C19"
 LEVEL = "exploration"
 RULE = ("The same generated Stack trees as C18 (depth <= 4, width <= 3, hidden flags also inside contexts, exiting last "
-        "contexts, inner stacks, child contexts and child stacks), each summarised with all 8 combinations of show_contexts x "
+        "contexts, inner stacks, child contexts and child stacks), each summarised, under an ambient sys.tracebacklimit that is unset / 0 / 1 / 2, with all 8 combinations of show_contexts x "
         "show_hidden_frames x capture_locals on CPython 3.9-3.12. Oracle: a reference projection written from the "
         "documentation gives the expected (filename, lineno, function-name prefix) entry list - one per visible frame; with "
         "contexts, before each frame one entry at the with line per visible context followed by its inner stack and child "
